@@ -88,6 +88,43 @@ fn exec_fetch_c17(case: &FCase) -> CaseReport {
     rep
 }
 
+fn exec_hybrid_c17(case: &crate::hybchecks::HybCase) -> CaseReport {
+    let mut rep = crate::hybchecks::exec_c01_as("ALL:C17", case);
+    // non-trivial: a lookup of k1 while k2 with the same hash has been written in this history
+    let n = crate::hybchecks::normalize(case);
+    let mut written: std::collections::BTreeMap<u64, std::collections::BTreeSet<u8>> = Default::default();
+    let mut looked: std::collections::BTreeMap<u64, std::collections::BTreeSet<u8>> = Default::default();
+    for op in &n.ops {
+        match op {
+            crate::hybsim::HOp::Insert { k, .. } | crate::hybsim::HOp::WriterInsert { k, .. } => {
+                written.entry(n.cfg.hash.hash_of(*k as u64)).or_default().insert(*k);
+            }
+            crate::hybsim::HOp::Get { k } | crate::hybsim::HOp::Fetch { k, .. } => {
+                looked.entry(n.cfg.hash.hash_of(*k as u64)).or_default().insert(*k);
+            }
+            _ => {}
+        }
+    }
+    rep.nontrivial = written.iter().any(|(h, ws)| looked.get(h).map(|ls| ls.iter().any(|l| ws.iter().any(|w| w != l))).unwrap_or(false));
+    // C17 is about aliasing between *different* keys: only a value that belongs to another key (or to no key) counts
+    // here; staleness of the key's own versions is C01's business and reported there.
+    let alias = |sig: &str| sig.starts_with("foreign-value") || sig.starts_with("garbage-value") || sig.starts_with("foreign-or-garbage-tiny") || sig.starts_with("lookup-never-resolves") || sig.starts_with("lookup-error");
+    let mut all = rep.tolerated.clone();
+    if let Some(f) = rep.failure.take() {
+        all.push(f);
+    }
+    rep.tolerated.clear();
+    rep.failure = all.into_iter().find(|f| alias(&f.signature));
+    if let Some(f) = rep.failure.as_mut() {
+        f.signature = format!("hybrid:{}", f.signature);
+    }
+    rep
+}
+
+pub fn replay_hybrid(case: crate::hybchecks::HybCase) -> Option<crate::common::Failure> {
+    exec_hybrid_c17(&case).failure
+}
+
 pub fn run_memory_half(check: &Check) {
     let cases = check.tier.pick(20_000, 400_000);
     check.run_random("memory-collide", cases, || mem_case(60), exec_mem_c17);
@@ -107,5 +144,11 @@ pub fn check_c17_memory_only(tier: Tier, seed: u64) -> Check {
     check.rule = "key sets built to collide under a user-supplied hasher (full 64-bit collisions of 2..6 keys, and same-shard / same-low-bits collisions): (memory) memsim histories with ample capacity judged by the exact reference model - every lookup of k returns k's own current entry, operations on k1 never change k2; (in-flight table) fetchsim histories over 4 colliding keys judged by the single-flight protocol model - flights of colliding keys stay separate; (hybrid) hybsim histories, both policies, held io, reopen: get(k) is a miss or k's current value, never a value whose embedded key differs. Non-trivial = at least two keys with one hash are inserted / fetched / on disk in the same history.".into();
     check.assumptions = vec!["contains() on the disk tier may be a false positive by documentation and is not asserted".into()];
     run_memory_half(&check);
+    let cases = tier.pick(40_000, 800_000);
+    let dom = crate::hybchecks::CfgDomain {
+        collisions: true,
+        ..Default::default()
+    };
+    check.run_random("hybrid-collide", cases, || crate::hybchecks::c01_case(40, dom), exec_hybrid_c17);
     check
 }
